@@ -109,3 +109,8 @@ claim('C13', 'evaluation of the orientation table, slip-plane shifts, boundary r
       'add displacement at (reference position - centre) -> periodic along the line only -> wrap, both systems stored atom for atom, boundary atoms = shape.outside re-typed by +natypes; box/array/cylinder boundary geometry (radius = smallest face distance - width on model cross-sections); '
       'array: b/2 tilt by the sign of b·m, refusals (atoms on the slip plane, non-integer count, found != expected either way), old_id and trimmed reference, linear field odd in n; disregistry through the final box. '
       'The disregistry integral, overlaps in a concrete crystal and the returned rotation are not decided.', 'DESIGN.md §6 C13')
+
+claim('C18', 'evaluation of the gamma-surface conversions on a symbolic non-cubic cell composed to the identity; evaluation of fit() on model sample grids (interpolation nodes vs periodic tiling); E_gsf routing/period reduction/edge blend with a symbolic interpolant; every Peierls-Nabarro energy term on a symbolic profile against its documented formula; recording minimiser for solve(); CAS derivative of the arctangent pair',
+      'Decides structural necessary conditions: fractional/Cartesian/plotting conversions are mutual inverses for one and several positions with stored and alternate in-plane vectors; the interpolation nodes contain every sample with its own energy plus one ring of periodic images (rectangular grids either way round); '
+      'position routing, reduction by whole periods, blend weights; dislocation densities, misfit/elastic/long-range/stress/non-local/surface terms equal to their formulas for the profile passed in, symmetric elastic kernel, the two stress forms differing only through end values; total = sum of the six with the same arguments; '
+      'solve() varies interior x,z only and restores both ends; d/dx disregistry = density, limits 0 -> b. Interpolant accuracy, energy decrease under minimisation and the classical half-width are not decided. One known finding (fullstress with central differences raises).', 'DESIGN.md §6 C18')
